@@ -192,6 +192,22 @@ pub fn arithmetic_paths() -> Vec<JPath> {
         out.push(JPath(vec![Step::Root, Step::Filter(Box::new(Expr::ArithBinary(op, Box::new(cur.clone()), Box::new(three.clone()))))]));
         out.push(JPath(vec![Step::Root, Step::BracketWild, Step::Filter(Box::new(Expr::ArithBinary(op, Box::new(cur.clone()), Box::new(cur.clone()))))]));
     }
+    // arithmetic below exists(), in a nested filter, behind a connective, in a second filter
+    let one = Expr::Lit(Lit::Num(RNum::U(1)));
+    let arith = |op: char| Expr::ArithBinary(op, Box::new(cur.clone()), Box::new(one.clone()));
+    for op in ['+', '*'] {
+        out.push(JPath(vec![Step::Root, Step::BracketWild, Step::Filter(Box::new(Expr::Exists(vec![Step::Current, Step::Dot("a".into()), Step::Filter(Box::new(arith(op)))])))]));
+        out.push(JPath(vec![Step::Root, Step::DotWild, Step::Filter(Box::new(Expr::Exists(vec![Step::Current, Step::BracketWild, Step::Filter(Box::new(arith(op)))])))]));
+        out.push(JPath(vec![Step::Root, Step::Filter(Box::new(Expr::Exists(vec![Step::Root, Step::Dot("a".into()), Step::Filter(Box::new(arith(op)))])))]));
+        out.push(JPath(vec![Step::Predicate(Box::new(Expr::Exists(vec![Step::Root, Step::BracketWild, Step::Filter(Box::new(arith(op)))])))]));
+        // (arithmetic as a comparison operand is not in the language the parser accepts)
+        out.push(JPath(vec![Step::Root, Step::BracketWild, Step::Filter(Box::new(Expr::Or(
+            Box::new(Expr::Cmp(Cmp::Eq, Box::new(cur.clone()), Box::new(one.clone()))),
+            Box::new(Expr::Exists(vec![Step::Current, Step::Dot("a".into()), Step::Filter(Box::new(arith(op)))])),
+        )))]));
+        out.push(JPath(vec![Step::Root, Step::BracketWild, Step::Filter(Box::new(Expr::Cmp(Cmp::Eq, Box::new(cur.clone()), Box::new(one.clone())))), Step::Filter(Box::new(arith(op)))]));
+        out.push(JPath(vec![Step::Root, Step::Dot("a".into()), Step::Filter(Box::new(arith(op))), Step::BracketWild]));
+    }
     for op in ['+', '-'] {
         out.push(JPath(vec![Step::Predicate(Box::new(Expr::ArithUnary(op, Box::new(a.clone()))))]));
         out.push(JPath(vec![Step::Root, Step::Dot("a".into()), Step::Filter(Box::new(Expr::ArithUnary(op, Box::new(cur.clone()))))]));
